@@ -11,6 +11,7 @@ import (
 	"github.com/indexsupply/shovel/shovel/glf"
 	"github.com/indexsupply/shovel/wctx"
 	"github.com/indexsupply/shovel/wpg"
+	"github.com/jackc/pgx/v5/pgxpool"
 	"verif/harness/fakepg"
 )
 
@@ -59,6 +60,7 @@ type WireObs struct {
 	AppNames []string // `set application_name ...`
 	Cursor   []string // statements on shovel.task_updates
 	Steps    int      // Converge calls that returned nil
+	Params   []string // every statement parameter the database received, rendered
 }
 
 // RunFileWire: the file path as cmd/shovel/main.go runs it against a real
@@ -86,31 +88,14 @@ func RunFileWire(conf shconfig.Root) (o WireObs) {
 	n0 := s.LogLen()
 	p := catch(func() {
 		shconfig.Migrate(ctx, pool, conf) // names the fake's parser refuses (hyphen, ...) fail here as in Postgres
-		tasks, err := shovel.VerifTaskLoad(ctx, pool, conf)
-		if err != nil {
-			return
-		}
-		byName := map[string]shconfig.Integration{}
-		for _, ig := range conf.Integrations {
-			byName[ig.Name] = ig
-		}
-		for _, t := range tasks {
-			info := t.VerifTaskInfo()
-			head := info.Stop
-			if head == 0 {
-				head = info.Start + 1
-			}
-			t.VerifTaskSetSource(&scriptedSource{cl: jrpc2.New("http://127.0.0.1:1"), head: head, ig: byName[info.IGName]})
-			if t.Converge() == nil {
-				o.Steps++
-			}
-		}
+		o.Steps = convergeOnce(ctx, pool, conf, conf.Integrations)
 	})
 	if p != "" {
 		o.Err = "panic: " + p
 	}
 	for _, en := range s.Log()[n0:] {
 		o.AllSQL = append(o.AllSQL, en.SQL)
+		o.Params = append(o.Params, renderParams(en.Params)...)
 		switch {
 		case strings.HasPrefix(en.SQL, "set application_name"):
 			o.AppNames = append(o.AppNames, en.SQL)
@@ -119,4 +104,46 @@ func RunFileWire(conf shconfig.Root) (o WireObs) {
 		}
 	}
 	return
+}
+
+func renderParams(ps []fakepg.Value) []string {
+	var out []string
+	for _, p := range ps {
+		switch x := p.(type) {
+		case string:
+			out = append(out, x)
+		case []fakepg.Value:
+			out = append(out, renderParams(x)...)
+		case []byte:
+			out = append(out, string(x))
+		default:
+			out = append(out, fakepg.FormatValue(p))
+		}
+	}
+	return out
+}
+
+// convergeOnce builds the tasks of conf against the pool (loadTasks) and runs
+// one Converge per task on the scripted source.
+func convergeOnce(ctx context.Context, pool *pgxpool.Pool, conf shconfig.Root, igs []shconfig.Integration) (steps int) {
+	tasks, err := shovel.VerifTaskLoad(ctx, pool, conf)
+	if err != nil {
+		return 0
+	}
+	byName := map[string]shconfig.Integration{}
+	for _, ig := range igs {
+		byName[ig.Name] = ig
+	}
+	for _, t := range tasks {
+		info := t.VerifTaskInfo()
+		head := info.Stop
+		if head == 0 {
+			head = info.Start + 1
+		}
+		t.VerifTaskSetSource(&scriptedSource{cl: jrpc2.New("http://127.0.0.1:1"), head: head, ig: byName[info.IGName]})
+		if t.Converge() == nil {
+			steps++
+		}
+	}
+	return steps
 }
